@@ -78,6 +78,14 @@ SHADOW = [
     "lambda e: [s + j.pt for j in e.jets for s in j.sub]",
     "lambda e: [x for j in e.jets for x in j.sub]",
     "lambda e: [j.pt for j in e.jets if j.pt > x]",
+    # the FIRST iterable belongs to the enclosing scope: the captured variable there is frozen although the target has its name
+    "lambda e: [x + 1 for x in e.jets.Select(lambda j: j.pt + x)]",
+    "lambda e: sum(x for x in e.jets.Select(lambda j: j.pt * x))",
+    "lambda e: sorted({x for x in [x, e.a]})",
+    "lambda e: {x: y for x in [x, y, e.a]}",
+    "lambda e: [x + s for x in [x, e.a] for s in [x, y]]",
+    "lambda e: [q for q in e.jets.Select(lambda x: x.pt + y) if q > x] + [x for x in [x]]",
+    "lambda e: e.jets.Select(lambda j: [x * j.pt for x in [x, y]])",
     # several `for` clauses: a later iterable / condition mentions an earlier target that has the captured name
     "lambda e: [s + x.pt for x in e.jets for s in x.sub]",
     "lambda e: [s + x.pt for x in e.jets for s in x.sub if s > x.eta] + [x]",
@@ -122,6 +130,9 @@ def corpus():
     out.append(Case("lambda ev: [j.pt for j in ev.jets] + [j]", [Var("j", "l1", "j = 5")], 1, {"F08"}, group="corpus"))
     out.append(Case("lambda e: [x for x in e.jets.Select(lambda j: j.pt)]", [Var("x", "l1", "x = 3")], 1, {"F08"}, group="corpus"))
     out.append(Case("lambda e: {x: e.a for x in e.jets.Select(lambda j: j.pt)}", [Var("x", "g", "x = 3")], 1, {"F08"}, group="corpus"))
+    # the first iterable of a comprehension is evaluated outside it: `jet` there is the captured global, the target is not
+    out.append(Case("lambda e: [jet + 1 for jet in e.jets.Select(lambda j: j.pt * jet)]", [Var("jet", "g", "jet = 4", after="jet = 'REBOUND'")],
+                    1, {"first-iterable"}, group="corpus"))
     # F42: the walrus target is a local of the lambda although a global of that name exists
     out.append(Case("lambda e: (y := e.x) + y", [Var("y", "g", "y = 3", after="y = 'REBOUND'")], 1, {"F42", "assignment-expression"}, group="corpus"))
     # a left-over loop index `j` as module global, two `for` clauses (the second iterable uses the first target)
